@@ -31,6 +31,11 @@ func startChild(dir string, flushMs int) (*child, bool, string, error) {
 	return startChildLim(dir, flushMs, -1)
 }
 
+// startRealChild: the child's server is run by server.Start (see real.go)
+func startRealChild(dir string) (*child, bool, string, error) {
+	return startChildMode("serve-real", dir, 20, -1)
+}
+
 // crashStart: the server is started with the file size limit k (see crashAtFileSize): the first saver of the start-up
 // sequence that writes more than k bytes to a file dies inside the write. Returns how the start ended:
 // "died:<signal>", "refused" (Init failed before any such write) or "started" (no write reached the limit; the
@@ -80,7 +85,16 @@ func waitDeath(cmd *exec.Cmd) string {
 }
 
 func startChildLim(dir string, flushMs int, lim int64) (*child, bool, string, error) {
-	cmd := exec.Command(os.Args[0], "serve", dir, fmt.Sprint(flushMs), fmt.Sprint(lim))
+	return startChildMode("serve", dir, flushMs, lim)
+}
+
+// startEnsureChild: the forwarding pipe is in the server's configuration (EnsureAtStart)
+func startEnsureChild(dir string, flushMs int, name string) (*child, bool, string, error) {
+	return startChildMode("serve", dir, flushMs, -1, "ensure:"+name)
+}
+
+func startChildMode(mode, dir string, flushMs int, lim int64, more ...string) (*child, bool, string, error) {
+	cmd := exec.Command(os.Args[0], append([]string{mode, dir, fmt.Sprint(flushMs), fmt.Sprint(lim)}, more...)...)
 	stdin, err := cmd.StdinPipe()
 	if err != nil {
 		return nil, false, "", err
@@ -218,6 +232,11 @@ func main() {
 	if len(os.Args) > 1 && os.Args[1] == "serve" {
 		Quiet()
 		serveMain(os.Args[2:])
+		return
+	}
+	if len(os.Args) > 1 && os.Args[1] == "serve-real" {
+		Quiet()
+		serveRealMain(os.Args[2:])
 		return
 	}
 	Main("C07", "C07K", run)
